@@ -116,6 +116,7 @@ theorem isequal_refl (a : Val) (h : WF a) : isequal a a = .val true := by
   | idx l => simp only [isequal]; rw [isequalIdx_eq_spec]; simp [specIdx]
   | nd s d => simp only [isequal]; exact isequalNd_refl s d h.1 h.2
   | nothing => simp [isequal]
+  | lit => exact absurd h (by simp [WF])
   | just v ih => simp only [isequal]; exact ih h
   | left v ih => simp only [isequal]; exact ih h
   | right v ih => simp only [isequal]; exact ih h
@@ -134,7 +135,8 @@ theorem nd_ne_oob (s1 d1 s2 d2) (h1 : d1.length = prod s1 ∧ Pos s1) (h2 : d2.l
 theorem isequal_never_oob (a b : Val) (ha : WF a) (hb : WF b) : isequal a b ≠ .oob := by
   fun_induction isequal a b <;> simp_all [WF, isequalIdx_eq_spec, nd_ne_oob, and_ne_oob]
 
-theorem sameConcept_comm (a b : Val) : sameConcept a b = sameConcept b a := by cases a <;> cases b <;> rfl
+theorem sameConcept0_comm (a b : Val) : sameConcept0 a b = sameConcept0 b a := by cases a <;> cases b <;> rfl
+theorem sameConcept_comm (a b : Val) : sameConcept a b = sameConcept b a := by unfold sameConcept; exact sameConcept0_comm _ _
 
 /-- SYMMETRIC on every accepted pairing (optionals, eithers, tuples, arrays, index arrays, numbers) -/
 theorem isequal_symm (a b : Val) (ha : WF a) (hb : WF b) : isequal a b = isequal b a := by
